@@ -6,6 +6,7 @@ from ..core import astq
 from ..core.cfg import guards_of, ENTRY, EXIT
 from ..core.dataflow import assigned_value
 from . import common as K
+from . import optalg
 
 EXPLANATION = (
     "R14a: every return of constrain_sum_bounded is bounded (guarded by >= lower & <= upper comparisons, or clipped by the bounds) and its sum is checked against the "
@@ -25,6 +26,9 @@ def run(ctx):
     ctx.each(r14d, ctx, repo)
     ctx.each(r14e, ctx, repo)
     ctx.each(r14f, ctx, repo)
+    ctx.each(optalg.rescale_algebra, ctx, repo, "R14g")
+    ctx.each(optalg.required_total, ctx, repo, "R14h")
+    ctx.each(optalg.evaluation_pipeline, ctx, repo, "R14i")
 
 
 def _derives_from(fi, name, param, depth=0):
